@@ -25,10 +25,14 @@ type env struct {
 	depth    int
 	tab      map[string]*sexpr
 	what     string // for error messages
+	cur      *state // the state contract evaluation started in (ghost locals live there)
 }
 
 func (e *env) with(st *state) *env {
 	n := *e
+	if n.cur == nil {
+		n.cur = e.st
+	}
 	n.st = st
 	return &n
 }
@@ -191,6 +195,14 @@ func (e *env) ev(x ast.Expr, hint types.Type) Val {
 		}
 		if v, ok := e.vars[n.Name]; ok {
 			return v
+		}
+		if v, ok := e.st.ghost["L_"+n.Name]; ok {
+			return v
+		}
+		if e.cur != nil {
+			if v, ok := e.cur.ghost["L_"+n.Name]; ok {
+				return v
+			}
 		}
 		if g := u.eng.findGhost(e.pkg, n.Name); g != nil {
 			return e.ghostVal(g)
